@@ -21,7 +21,9 @@ LEVEL = "exploration"
 JAIL = True
 
 ATOMS = ["a", "kw1", "$Forwarded", "NonJunk", "a-b.c", "123", "x_y", "A1", "foo]bar", "a:b", "a=b", "&AOk-", "~home"]
-STRINGS = ["plain", "with space", 'qu"ote', "back\\slash", "", "8bit\xe9", "paren(", "star*", "pct%", "br{ace", "line\r\nbreak", "]", "INBOX", "inbox", "InBoX", "inboxfoo", "a/b", "a//b", "a/./b", "a/b/", "../x", "/abs", "NIL", "see footnote {3}", "ends {2+}", "{0}", "x{12}"]
+STRINGS = ["plain", "with space", 'qu"ote', "back\\slash", "", "8bit\xe9", "paren(", "star*", "pct%", "br{ace", "line\r\nbreak", "]", "INBOX", "inbox", "InBoX", "inboxfoo", "a/b", "a//b", "a/./b", "a/b/", "../x", "/abs", "NIL", "see footnote {3}", "ends {2+}", "{0}", "x{12}",
+           # octets that are well-formed UTF-8 (the transport carries octets; one character per octet is how both processes read them)
+           "jos\xc3\xa9", "\xe2\x82\xacuro 5", "na\xc3\xafve caf\xc3\xa9 \xf0\x9f\x93\xa7"]
 FLAGS = ["\\Seen", "\\Answered", "\\Flagged", "\\Deleted", "\\Draft", "\\Recent", "\\seen", "\\FooBar", "kw1", "$Forwarded", "a:b", "unseen"]
 
 
@@ -119,7 +121,7 @@ def gen_sentence(rnd):
     if cu == "RENAME":
         return f"{tag} {cs} {mbox()} {mbox()}"
     if cu == "LOGIN":
-        return f"{tag} {cs} {enc_astring(rnd, rnd.choice(['user', 'us er', 'u\"x']))} {enc_astring(rnd, rnd.choice(STRINGS))}"
+        return f"{tag} {cs} {enc_astring(rnd, rnd.choice(['user', 'us er', 'u\"x', 'jos\xc3\xa9']))} {enc_astring(rnd, rnd.choice(STRINGS))}"
     if cu == "AUTHENTICATE":
         return f"{tag} {cs} {rnd.choice(['PLAIN', 'login', 'CRAM-MD5'])}"
     if cu in ("LIST", "LSUB"):
@@ -525,6 +527,61 @@ def evaluate(text, budget=0.5):
     return res
 
 
+def _snap(v):
+    from email.message import Message
+
+    if isinstance(v, Message):
+        try:
+            return ("message", v.as_bytes())
+        except Exception as e:  # noqa: BLE001
+            return ("message", type(e).__name__)
+    if isinstance(v, (set, frozenset)):
+        return sorted(str(x) for x in v)
+    if isinstance(v, dict):
+        return sorted((str(k), _snap(x)) for k, x in v.items())
+    if isinstance(v, (list, tuple)):
+        return [_snap(x) for x in v]
+    if isinstance(v, (str, int, float, bool, type(None), bytes)):
+        return v
+    return str(v)
+
+
+def byte_entry(text):
+    """The front end hands commands to the parser as octets
+    (parse_cmd_from_msg(bytes)); the per-user process hands them over as text,
+    one character per octet.  Both entries must read the same command: same
+    verdict, same fields (a literal's size counts octets in both)."""
+    from asimap.parse import BadCommand, IMAPClientCommand, parse_cmd_from_msg
+
+    try:
+        data = text.encode("latin-1")
+    except UnicodeEncodeError:
+        return None
+    out = []
+    for how in ("text", "bytes"):
+        try:
+            if how == "text":
+                c = IMAPClientCommand(text)
+                c.parse()
+            else:
+                c = parse_cmd_from_msg(data)
+            out.append(("accepted", sorted((k, _snap(v)) for k, v in vars(c).items() if k not in ("timeout_cm", "ready", "completed", "needs_continuation"))))
+        except BadCommand as e:
+            out.append(("bad", str(e)))
+        except BaseException as e:  # noqa: B036
+            out.append(("exception", type(e).__name__))
+    if out[0] != out[1]:
+        d0, d1 = out
+        detail = f"as text: {d0[0]}, as octets: {d1[0]}"
+        if d0[0] == d1[0] == "accepted":
+            diff = [(a, b) for a, b in zip(d0[1], d1[1]) if a != b][:2]
+            detail += f"; fields differ: {str(diff)[:300]}"
+        elif d0[0] == d1[0]:
+            detail += f"; {str(d0[1])[:120]!r} vs {str(d1[1])[:120]!r}"
+        return detail
+    return ""
+
+
 async def proxy_sample(loop, ctx):
     """Rejected inputs through the real proxy: BAD and the session survives."""
     rnd = rng(ctx["seed"], "c08proxy", ctx["script"])
@@ -704,6 +761,19 @@ def run_shard(spec):
         cid = common.h(text_in)
         if len(samples) < 6 and ev["sentence"] and origin == "sentence":
             samples.append(text_in[:160])
+        if not ev.get("kind"):
+            be = byte_entry(text_in)
+            if be is not None:
+                counts["byte_entry_compared"] += 1
+                if any(ord(ch) > 127 for ch in text_in):
+                    counts["byte_entry_compared_8bit"] += 1
+                    try:
+                        text_in.encode("latin-1").decode("utf-8")
+                        counts["byte_entry_compared_wellformed_utf8"] += 1
+                    except UnicodeDecodeError:
+                        pass
+            if be:
+                ev = dict(ev, kind="octet-entry-reads-another-command", detail=be)
         if ev.get("kind"):
             w = {"kind": ev["kind"], "detail": ev["detail"], "input": text_in[:400], "origin": origin, "mech": ev.get("mech"), "fields": ev.get("fields"), "exc": ev.get("exc"), "name": name}
             cases.append(Case.make(cid, VIOLATED, spec=dict(spec, only=text_in), nontrivial=nontriv, key=cid, witness=w, sample={"input": text_in[:160], "origin": origin}))
